@@ -420,6 +420,36 @@ def cmd_check(prop, tier, base_seed, workers, runs_override=None, wall_cap=None,
         print(f"HARNESS-ERROR property={prop}: {harness_error}", file=sys.stderr)
         return 2
 
+    # -------- the same property under `python -O` (assert statements stripped): a slice of the run indices is executed
+    # again in an optimised interpreter; digests must equal the normal ones and violations found there are reported
+    opt = {"runs": 0, "violations": 0, "digest_mismatches": 0}
+    n_opt = min(n_runs, getattr(spec, "opt_slice", {}).get(tier, 150 if tier == "quick" else 1500))
+    if n_opt and not os.environ.get("DSIM_NO_OPT"):
+        env = dict(os.environ, DSIM_REEXEC="1", PYTHONOPTIMIZE="1", PYTHONHASHSEED="0")
+        try:
+            pr = subprocess.run([sys.executable, os.path.join(VERIF, "check"), prop, "--slice", f"0:{n_opt}", "--seed",
+                                 str(base_seed), "--tier", tier], env=env, capture_output=True, text=True, timeout=1800)
+            line = [l for l in pr.stdout.splitlines() if l.startswith("SLICE-JSON ")]
+            if pr.returncode != 0 or not line:
+                raise HarnessError(f"-O slice failed: {pr.stderr[-1500:]}")
+            so = json.loads(line[-1][len("SLICE-JSON "):])
+        except HarnessError as e:
+            print(f"HARNESS-ERROR property={prop}: {e}", file=sys.stderr)
+            return 2
+        opt["runs"] = so["runs"]
+        for k, d in so["digests"].items():
+            if int(k) in first_digests and first_digests[int(k)] != d and not any(v["index"] == int(k) for v in so["violations"]):
+                opt["digest_mismatches"] += 1
+                print(f"NONDETERMINISM property={prop} index={k}: digest under python -O differs", file=sys.stderr)
+        for v in so["violations"]:
+            v["python_flags"] = ["-O"]
+            v["violation"].setdefault("signature", {})["python_O"] = True
+            if not any(x["index"] == v["index"] and x["violation"]["kind"] == v["violation"]["kind"] for x in violations):
+                violations.append(v)
+                opt["violations"] += 1
+        if opt["digest_mismatches"]:
+            return 2
+
     # -------- determinism self-test: same seeds again, fresh interpreter, other PYTHONHASHSEED
     st_n = selftest_n if selftest_n is not None else spec.selftest.get(tier, 8)
     st_idx = [i for i in range(min(st_n, n_runs, 64)) if i in first_digests or str(i) in first_digests]
@@ -462,6 +492,21 @@ def cmd_check(prop, tier, base_seed, workers, runs_override=None, wall_cap=None,
             rec = {"scenario": v["scenario"], "seed": v["seed"], "index": v["index"], "config": v["config"],
                    "steps": v["steps"]}
             path = os.path.join(out_dir(), "replays", f"{prop}-{v['violation']['kind']}-{v['seed']:016x}.json")
+            if v.get("python_flags"):
+                # seen under `python -O` only: the replay file says so and is confirmed in an optimised interpreter
+                doc = {"property": spec.prop, "scenario": v["scenario"], "seed": v["seed"], "index": v["index"],
+                       "config": v["config"], "steps": v["steps"], "violation": v["violation"], "digest": None,
+                       "python_flags": ["-O"],
+                       "note": "found with assert statements stripped (python -O / PYTHONOPTIMIZE=1); replay with "
+                               "`PYTHONOPTIMIZE=1 ./check %s --replay <file>`; not minimised" % prop}
+                os.makedirs(os.path.dirname(path), exist_ok=True)
+                with open(path, "w") as f:
+                    json.dump(doc, f, indent=1, default=core._json_default)
+                if confirm_fresh(prop, path, v["violation"]["kind"], optimise=True):
+                    alarms.append({"kind": v["violation"]["kind"], "count": len(vs), "replay": path,
+                                   "detail": v["violation"]["detail"][:400], "steps_before": len(v["steps"]),
+                                   "steps_after": len(v["steps"]), "shrink": {"mode": "none (python -O)"}})
+                    continue
             base = replay_once(spec, rec, _WORKER["scratch"])
             if (base.violation is None or base.violation["kind"] != v["violation"]["kind"]) and v.get("chunk_before"):
                 # not reproducible alone: the violation needs process state left behind by earlier runs of its chunk
@@ -550,7 +595,7 @@ def cmd_check(prop, tier, base_seed, workers, runs_override=None, wall_cap=None,
 
     wall = time.time() - t0
     ev = build_evidence(spec, prop, tier, base_seed, agg, nontriv, states, states_capped, truncated, selftest,
-                        known_hits, alarms, wall, n_runs, workers)
+                        known_hits, alarms, wall, n_runs, workers, opt)
     os.makedirs(os.path.join(out_dir(), "evidence"), exist_ok=True)
     with open(os.path.join(out_dir(), "evidence", f"{prop}.json"), "w") as f:
         json.dump(ev, f, indent=1, default=core._json_default)
@@ -572,9 +617,11 @@ def cmd_check(prop, tier, base_seed, workers, runs_override=None, wall_cap=None,
     return 1 if alarms else 0
 
 
-def confirm_fresh(prop, path, kind, hashseed="777"):
+def confirm_fresh(prop, path, kind, hashseed="777", optimise=False):
     env = dict(os.environ)
     env["PYTHONHASHSEED"] = hashseed
+    if optimise:
+        env["PYTHONOPTIMIZE"] = "1"
     env["DSIM_REEXEC"] = "1"
     p = subprocess.run([sys.executable, os.path.join(VERIF, "check"), prop, "--replay", path, "--quiet"],
                        env=env, capture_output=True, text=True, timeout=600)
@@ -582,7 +629,7 @@ def confirm_fresh(prop, path, kind, hashseed="777"):
 
 
 def build_evidence(spec, prop, tier, base_seed, agg, nontriv, states, states_capped, truncated, selftest,
-                   known_hits, alarms, wall, n_planned, workers):
+                   known_hits, alarms, wall, n_planned, workers, opt_info=None):
     c = agg["counters"]
     faults = {k[6:]: v for k, v in sorted(c.items()) if k.startswith("fault.")}
     probes = {k[6:]: v for k, v in sorted(c.items()) if k.startswith("probe.")}
@@ -616,6 +663,7 @@ def build_evidence(spec, prop, tier, base_seed, agg, nontriv, states, states_cap
         "real_components": spec.real_components,
         "stubbed_components": spec.stubbed_components,
         "determinism_selftest": selftest,
+        "python_O_slice": opt_info,
         "known_findings_hit": {k: n for k, (e, n, v) in known_hits.items()},
         "alarms": alarms,
         "exhaustive": False,
@@ -638,6 +686,7 @@ def main(argv=None):
     ap.add_argument("--replay", default=None)
     ap.add_argument("--quiet", action="store_true")
     ap.add_argument("--digests", default=None, help="internal: print digests of the given run indices")
+    ap.add_argument("--slice", default=None, help="internal: run indices a:b in this interpreter and print a JSON summary")
     ap.add_argument("--selftest", type=int, default=None, help="number of seeds for the determinism self-test")
     ap.add_argument("--wall-cap", type=float, default=None)
     a = ap.parse_args(argv)
@@ -652,6 +701,18 @@ def main(argv=None):
         if a.digests is not None:
             idx = [int(x) for x in a.digests.split(",") if x]
             print(json.dumps(digests_for(prop, a.seed, idx, a.tier)))
+            return 0
+        if a.slice is not None:
+            lo, hi = [int(x) for x in a.slice.split(":")]
+            core.import_repo()
+            _worker_init(prop)
+            try:
+                out = _work(prop, a.seed, list(range(lo, hi)), a.tier, set())
+            finally:
+                _worker_cleanup()
+            out["states"] = []
+            out["nontrivial_digests"] = []
+            print("SLICE-JSON " + json.dumps(out, default=core._json_default))
             return 0
         if a.replay:
             return cmd_replay(prop, a.replay, quiet=a.quiet)
